@@ -90,7 +90,7 @@ _hist_text("C05", "stateful model-based property testing with injected command f
     "For fail-fast builds of the real binary only the safe half is asserted (dependants of a failed target never run; exit != 0); which independent targets still start is timing dependent and left MAY.")
 _hist_text("C13", "stateful model-based property testing over taint / no-cache / enable_cache histories with a three-valued model, plus an in-process differential check of the two output-hash paths (cached vs uncached) over generated outputs",
     "grog taint, no-cache tag toggles and --enable-cache=false builds are mixed with edits and failures; forced targets must run, a successful forced run consumes the taint (a failed one does not), dependants with unchanged dependency outputs stay cached. hash-agreement: for generated file/dir outputs (incl. symlinked file outputs) Registry.WriteOutputs and Registry.GetNoCacheOutputHash must return the same output hash, which must move with content and exec-bit changes only.",
-    "One known finding is listed (dependants rebuilt once after a dependency switches between cached and uncached execution, two output-hash formulas); the model recognises exactly that pattern, reports it as KNOWN-FINDING and continues the history.")
+    "No open finding: the formerly listed one (dependants rebuilt once after a dependency switched between cached and uncached execution) was repaired in the code (dab3f16) and its recognition in the model is switched off.")
 _hist_text("C14", "stateful model-based property testing with external post-conditions (markers outside the workspace), timeouts, missing outputs and signal deaths",
     "Output checks over external markers are established, cached, destroyed and falsified; commands may skip a declared output, overrun their timeout or die from SIGKILL. Success (exit 0, cached) is only accepted when the command ended, all outputs exist and all checks pass; a failing check forces execution despite a cached result.",
     "Timeouts are 8 s against commands that take ~50 ms and a slow switch of 40 s (order-of-magnitude separation on both sides).")
